@@ -283,6 +283,8 @@ type Config struct {
 	Trace      *os.File // unbuffered trace
 	Invariant  func() error // optional online invariant, evaluated at every quiescence
 	Record     bool         // keep the list of choices in memory (Recorded)
+	SoftHang   bool         // on hang, set Hung and return from Run instead of exiting the process
+	MaxIdle    time.Duration // simulated idle time after which a run counts as hung (default 10 min)
 }
 
 // Scheduler is the bubble root.
@@ -301,6 +303,8 @@ type Scheduler struct {
 	Steps, Choices2plus, MaxRunnable, Advances, StallsFired, BlockedParks int
 	hashState uint64
 	rec       []int
+	Hung      bool
+	HungWhy   string
 }
 
 // Recorded returns the choices made so far (Config.Record).
@@ -441,7 +445,16 @@ func (s *Scheduler) Run() {
 				return
 			}
 			// only timers can make progress
-			if time.Since(s.simStart) > s.cfg.MaxSimTime || idle > 10*time.Minute {
+			maxIdle := s.cfg.MaxIdle
+			if maxIdle == 0 {
+				maxIdle = 10 * time.Minute
+			}
+			if time.Since(s.simStart) > s.cfg.MaxSimTime || idle > maxIdle {
+				if s.cfg.SoftHang {
+					s.Hung = true
+					s.HungWhy = fmt.Sprintf("no runnable task for %v simulated (blocked-parked=%d) at step %d", idle, nblocked, s.step)
+					return
+				}
 				s.fail(ExitHang, "HANG: no runnable task for %v simulated (blocked-parked=%d) at step %d", idle, nblocked, s.step)
 			}
 			s.Advances++
